@@ -29,3 +29,20 @@ func VerifNewCycleChecker(g *BuildGraph) func() []*BuildTarget {
 
 // VerifResolveDep resolves from's declared dependency on to (as happens one by one while a build runs).
 func VerifResolveDep(from, to *BuildTarget) { from.resolveDependency(to.Label, to) }
+
+// VerifOriginalTargetLabels returns the labels recorded as original (command-line) targets, unexpanded.
+func VerifOriginalTargetLabels(state *BuildState) []BuildLabel {
+	return state.progress.originalTargets.AllTargets()
+}
+
+// VerifResetOriginalTargets forgets the recorded original targets and keeps the parse queue drained (nothing is parsed):
+// lets a harness reuse one state for many command-line expansions.
+func VerifResetOriginalTargets(state *BuildState, startDrain bool) {
+	state.progress.originalTargets = NewTargetSet()
+	if startDrain {
+		go func() {
+			for range state.pendingParses {
+			}
+		}()
+	}
+}
